@@ -258,6 +258,7 @@ type BatchOpts struct {
 	BoundaryTimes []int64 // timestamps (e.g. segment boundaries) that rows land on exactly now and then (side tape)
 	// > 0: every non-entity tag / every field is null with probability 1/rate (also with Plain/SmallField)
 	NullTagRate, NullFieldRate int
+	EmptyStrRate               int // > 0: a string tag is the empty string with probability 1/rate
 	SmallField bool // int fields in [-100,100] (rarely int64 extremes), float fields k/4: sums are exact in any order
 	FixedTimes []int64
 }
@@ -338,6 +339,8 @@ func (m *MeasureModel) GenBatch(tp *simcore.Tape, o BatchOpts, batchNo int) []*M
 				}
 				if o.NullTagRate > 0 && tp.Bool(1, o.NullTagRate) {
 					r.Tags[t.Name] = TNull()
+				} else if o.EmptyStrRate > 0 && t.Type == databasev1.TagType_TAG_TYPE_STRING && tp.Bool(1, o.EmptyStrRate) {
+					r.Tags[t.Name] = TStr("") // present but empty: not the same as absent
 				}
 			}
 		}
